@@ -9,31 +9,31 @@ LEVEL_NOTE = ("Trusted: Lean 4.33.0 kernel and the axioms propext, Classical.cho
 
 CLAIMED = {
  "C01": dict(
-    text="Lean theorems over a buffer-level model of every secretbox/box/sealed-box entry point (classic + object API), parametric in XSalsa20/X25519/HSalsa20/Poly1305: open∘seal = id for every pairing, all API forms produce one wire format, model = NaCl spec. The model is tied to the code by a per-run differential run impl vs model vs Lean spec vs libsodium vs an independent python NaCl reference over every message length and every API form/container.",
+    text="Lean theorems over a buffer-level model of every secretbox/box/sealed-box entry point (classic + object API), parametric in XSalsa20/X25519/HSalsa20/Poly1305: open∘seal = id for every pairing, all API forms produce one wire format, model = NaCl spec. The model is tied to the code by a per-run differential run impl vs model vs Lean spec vs libsodium vs an independent python NaCl reference over every message length and every API form/container. After review: the instance the driver runs (boxPrims, Poly1305 limb model) is proved equal to Spec.NaCl for every seal and open form (model_eq_spec_*_boxPrims), key-stream prefix law and MAC-key independence.",
     design="§7 C01", technique="Lean 4 proof (round-trip, form agreement, model = NaCl spec) + differential correspondence impl/model/spec/libsodium",
     note="XSalsa20, X25519, HSalsa20 are parameters of the theorems (dependency crates; differential evidence only)."),
  "C02": dict(
-    text="Lean theorems: complete accept/reject decision procedure of every opening form (ok ⇔ length ≥ overhead ∧ recomputed MAC = presented tag), unconditional rejection of every tag change and of every short input; plus an exhaustive single-fault enumeration (every bit of tag/body/nonce/key/epk/AD, every truncation, extensions) evaluated on the implementation, the Lean model (real MAC) and libsodium.",
+    text="Lean theorems: complete accept/reject decision procedure of every opening form (ok ⇔ length ≥ overhead ∧ recomputed MAC = presented tag), unconditional rejection of every tag change and of every short input; plus an exhaustive single-fault enumeration (every bit of tag/body/nonce/key/epk/AD, every truncation, extensions) evaluated on the implementation, the Lean model (real MAC) and libsodium. Acceptance of any changed body / length / nonce / key is reduced to a Poly1305 collision under one key (body_tamper_accept_imp_collision, accept_imp_collision_boxPrims, key_nonce_flip_accept_imp_tag_eq).",
     design="§7 C02", technique="Lean 4 proof of the decision procedure + exhaustive single-fault differential enumeration",
     note="That distinct MAC inputs give distinct Poly1305 tags is cryptographic, not a theorem; it is checked concretely per enumerated fault."),
  "C03": dict(
-    text="Lean theorems over the secretstream state machine (any state incl. counter 0xffffffff, parametric in ChaCha20/HChaCha20/Poly1305): pull∘push returns message, tag and the same next state through all rekey branches; a rejected pull leaves state/buffer/tag untouched; little-endian counter increment. Tied to the code by random histories (push/rekey/in-order/replay/skip/swap/wrong-AD/bit-flip/foreign) compared three-way impl/model/libsodium incl. raw states via hook H1.",
+    text="Lean theorems over the secretstream state machine (any state incl. counter 0xffffffff, parametric in ChaCha20/HChaCha20/Poly1305): pull∘push returns message, tag and the same next state through all rekey branches; a rejected pull leaves state/buffer/tag untouched; little-endian counter increment. Tied to the code by random histories (push/rekey/in-order/replay/skip/swap/wrong-AD/bit-flip/foreign) compared three-way impl/model/libsodium incl. raw states via hook H1. Acceptance of wrong-AD / modified / replayed / skipped / swapped ciphertexts is reduced to MAC equations (wrong_ad_accept_imp_collision, accept_at_state_imp_mac_eq), counters are pairwise distinct within an epoch (counters_distinct_within_epoch), rekeying stated exactly, MESSAGEBYTES_MAX guards modelled.",
     design="§7 C03", technique="Lean 4 proof (state-machine invariants, induction over histories) + differential history correspondence impl/model/libsodium",
     note="ChaCha20/HChaCha20 are parameters; rejection of out-of-position ciphertexts rests on MAC collision-freeness (evaluated concretely)."),
  "C04": dict(
-    text="Lean theorems: the models of the attacker-facing functions (every panicking Rust operation modelled as an explicit panic outcome) never reach panic for any byte string; tied to the code by a sweep of every length 0..=2·overhead+64 × content classes under catch_unwind in a dev-profile build with a counting allocator.",
+    text="Lean theorems: the models of the attacker-facing functions (every panicking Rust operation modelled as an explicit panic outcome) never reach panic for any byte string; tied to the code by a sweep of every length 0..=2·overhead+64 × content classes under catch_unwind in a dev-profile build with a counting allocator. Code-shaped models with an explicit panic branch for every slice, checked subtraction, split_at, unwrap, copy_from_slice and key-stream seek (pullRaw, signOpenRaw, fromBytesRaw, parseRaw…) are proved equal to the total models and never to panic; guard-removed twins kept as counter-models (pullRawOld_short_panics, objPullOld_panics_iff); hmacVerify / onetimeauthVerify never panic; strVerify never panics with the project's Argon2 model under the explicit memory bound.",
     design="§7 C04", technique="Lean 4 proof of never-panics on the Outcome-model + differential totality sweep",
     note="panics inside dependency crates are outside the model; only the sweep sees them."),
  "C05": dict(
-    text="Lean theorems about dryoc's own part of X25519/kx (the field arithmetic is dalek's): the clamp equals RFC 7748's, is idempotent and yields a scalar in [2^254, 2^255) divisible by 8; scalarmult feeds the clamped scalar ITSELF to the ladder, hence equals RFC 7748 X25519 (scalarmult_eq_x25519), while the pre-repair variant that reduces mod L differs on every clamped scalar (clamped_scalar_ge_L) and on concrete low-order/mixed points (kernel-checked witnesses); ladder k 0 = 0 for every k; key exchange refuses an all-zero shared secret (iff), never panics, and client rx/tx = server tx/rx given DH commutativity (hypothesis). Tied to the code by impl vs Lean RFC 7748 ladder vs libsodium on random pairs (≈94% off-subgroup), the complete low-order/non-canonical/high-bit table × scalar bit patterns, RFC vectors incl. the 1000-iteration vector, and honest kx pairs with the mirror check.",
+    text="Lean theorems about dryoc's own part of X25519/kx (the field arithmetic is dalek's): the clamp equals RFC 7748's, is idempotent and yields a scalar in [2^254, 2^255) divisible by 8; scalarmult feeds the clamped scalar ITSELF to the ladder, hence equals RFC 7748 X25519 (scalarmult_eq_x25519), while the pre-repair variant that reduces mod L differs on every clamped scalar (clamped_scalar_ge_L) and on concrete low-order/mixed points (kernel-checked witnesses); ladder k 0 = 0 for every k; key exchange refuses an all-zero shared secret (iff), never panics, and client rx/tx = server tx/rx given DH commutativity (hypothesis). Tied to the code by impl vs Lean RFC 7748 ladder vs libsodium on random pairs (≈94% off-subgroup), the complete low-order/non-canonical/high-bit table × scalar bit patterns, RFC vectors incl. the 1000-iteration vector, and honest kx pairs with the mirror check. The ladder sees u only mod p and ignores bit 255 (ladder_mod_p, scalarmult_high_bit); every small-order point (incl. order 8, proved in ZMod p) gives zero for every clamped scalar, so kx refuses the whole blacklist for all secret keys; the Edwards-base-table shape of scalarmult_base is a named unproved hypothesis (BaseEdwardsOK).",
     design="§7 C05", technique="Lean 4 proof (clamp, key schedule, zero refusal, mirror under DH-commutativity hypothesis) + differential correspondence impl/RFC-7748 Lean spec/libsodium",
     note="curve25519-dalek's field/group arithmetic is modelled by the Lean ladder, not verified; DH commutativity is a hypothesis."),
  "C06": dict(
-    text="Lean theorems over dryoc's signing/verification sequence (hashing, reduction mod L, encoding; curve ops from the Lean RFC 8032 spec): the model's signature equals RFC 8032 sign for pure and pre-hashed mode and any chunking (sign_model_eq_spec, signPh_model_eq_spec), layout sig‖m and signOpen ok-iff, S ≥ L (every S+kL) rejected for every input, small-order or undecodable R/A rejected, full acceptance condition (verifyDetached_true_iff), domain separation of the two modes, verify∘sign over an abstract commutative group (the curve instantiating it is a hypothesis), model-vs-libsodium-strict agreement under explicit canonicity hypotheses, RFC 8032 TEST 1 kernel-checked through the model. Tied to the code by impl vs Lean spec vs libsodium on every message length, every single-bit mutation, the S+kL family in both modes, all small-order/non-canonical encodings, constructed torsion forgeries (mixed-order keys) and mode cross-overs.",
+    text="Lean theorems over dryoc's signing/verification sequence (hashing, reduction mod L, encoding; curve ops from the Lean RFC 8032 spec): the model's signature equals RFC 8032 sign for pure and pre-hashed mode and any chunking (sign_model_eq_spec, signPh_model_eq_spec), layout sig‖m and signOpen ok-iff, S ≥ L (every S+kL) rejected for every input, small-order or undecodable R/A rejected, full acceptance condition (verifyDetached_true_iff), domain separation of the two modes, verify∘sign over an abstract commutative group (the curve instantiating it is a hypothesis), model-vs-libsodium-strict agreement under explicit canonicity hypotheses, RFC 8032 TEST 1 kernel-checked through the model. Tied to the code by impl vs Lean spec vs libsodium on every message length, every single-bit mutation, the S+kL family in both modes, all small-order/non-canonical encodings, constructed torsion forgeries (mixed-order keys) and mode cross-overs. Small-order blacklist × sign bit rejected as a theorem (blacklist_R_rejected / _A_rejected); seeded key pair = RFC 8032 under the named curve facts.",
     design="§7 C06", technique="Lean 4 proof (signature layout, determinism, canonical-S rejection) + differential correspondence impl/RFC-8032 Lean spec/libsodium",
     note="dalek Edwards arithmetic and sha2 are modelled by Lean specs, not verified; verify∘sign needs the group law (abstract-group theorem)."),
  "C07": dict(
-    text="Lean theorems: the limb-level model of poly1305_soft.rs equals RFC 8439 for every key and message (all carry corners) and never overflows a checked u64/u128 operation; the model of blake2b_soft.rs (code-shaped compress = RFC 7693 F, parameter block, keyed init, buffering, finalize) equals RFC 7693 for every digest/key length; code-shaped HSalsa20 (16 named words, 32 statements × 10) = Salsa20 doubleround spec, HChaCha20 = RFC quarter-round spec, SipHash-2-4 (chunks_exact loop + remainder + len<<56) = the paper's word parsing for every length, HMAC-SHA-512-256 construction = RFC 2104 spec (SHA-512 a parameter), verify ok iff tag = MAC, little-endian increment = +1 mod 256^n. The arithmetic kernels themselves (load_u64_le, Poly1305 new/blocks/finalize tail, BLAKE2b tables + compress + counter, siphash24, crypto_core_hchacha20/hsalsa20) are MACHINE-TRANSLATED from /repo/src by tools/rs2lean.py on every run and proved equal to the model for all inputs (translated_* theorems), so an edited constant/operator/carry breaks a proof obligation. Tied to the code additionally by impl vs model vs Lean spec vs libsodium over every length 0..=L, every BLAKE2b digest/key length and constructed Poly1305 carry corners.",
+    text="Lean theorems: the limb-level model of poly1305_soft.rs equals RFC 8439 for every key and message (all carry corners) and never overflows a checked u64/u128 operation; the model of blake2b_soft.rs (code-shaped compress = RFC 7693 F, parameter block, keyed init, buffering, finalize) equals RFC 7693 for every digest/key length; code-shaped HSalsa20 (16 named words, 32 statements × 10) = Salsa20 doubleround spec, HChaCha20 = RFC quarter-round spec, SipHash-2-4 (chunks_exact loop + remainder + len<<56) = the paper's word parsing for every length, HMAC-SHA-512-256 construction = RFC 2104 spec (SHA-512 a parameter), verify ok iff tag = MAC, little-endian increment = +1 mod 256^n. The arithmetic kernels themselves (load_u64_le, Poly1305 new/blocks/finalize tail, BLAKE2b tables + compress + counter, siphash24, crypto_core_hchacha20/hsalsa20) are MACHINE-TRANSLATED from /repo/src by tools/rs2lean.py on every run and proved equal to the model for all inputs (translated_* theorems), so an edited constant/operator/carry breaks a proof obligation. Tied to the code additionally by impl vs model vs Lean spec vs libsodium over every length 0..=L, every BLAKE2b digest/key length and constructed Poly1305 carry corners. Verify functions modelled (poly1305_verify_ok_iff, poly1305_object_verify_cases); whole-run overflow freedom of Poly1305 (poly1305_run_checked); BLAKE2b update slice indices in range; generichash_err_iff.",
     design="§7 C07", technique="Lean 4 proof of model = spec (limb arithmetic, carries, overflow freedom) + kernels regenerated from source by a translator and proved equal to the model + differential correspondence impl/model/spec/libsodium",
     note="dependency crates (sha2) are modelled by the Lean spec, not verified."),
  "C08": dict(
@@ -41,51 +41,51 @@ CLAIMED = {
     design="§7 C08", technique="Lean 4 proof (induction over the chunk list with a buffering invariant) + exhaustive split enumeration",
     note="sha2's buffering (SHA-512/HMAC/incremental signing) is not modelled; differential only."),
  "C09": dict(
-    text="Lean theorems about dryoc's Argon2 glue (parameter validation iff, the (opslimit, memlimit) → (t, m) conversion, instance arithmetic m′ = 4p⌊m/4p⌋, index_alpha never under/overflows and equals the RFC 9106 §3.4 mapping, prev/curr offsets stay in the lane, addressing mode, H′ chunk arithmetic) and base64; fill_memory of the model = the RFC 9106 spec for every valid parameter set. fblamka, index_alpha, blake2_round_nomsg and the index tuples of fill_block are MACHINE-TRANSLATED from argon2.rs by tools/rs2lean.py on every run and proved equal to the model (translated_* theorems). Tied to the code additionally by impl vs model vs Lean RFC 9106 spec vs libsodium over output lengths 16..1100, password lengths, t=1..6, memory sizes incl. non-multiples of 4 KiB, salts 8..64, rejected points.",
+    text="Lean theorems about dryoc's Argon2 glue (parameter validation iff, the (opslimit, memlimit) → (t, m) conversion, instance arithmetic m′ = 4p⌊m/4p⌋, index_alpha never under/overflows and equals the RFC 9106 §3.4 mapping, prev/curr offsets stay in the lane, addressing mode, H′ chunk arithmetic) and base64; fill_memory of the model = the RFC 9106 spec for every valid parameter set. fblamka, index_alpha, blake2_round_nomsg and the index tuples of fill_block are MACHINE-TRANSLATED from argon2.rs by tools/rs2lean.py on every run and proved equal to the model (translated_* theorems). Tied to the code additionally by impl vs model vs Lean RFC 9106 spec vs libsodium over output lengths 16..1100, password lengths, t=1..6, memory sizes incl. non-multiples of 4 KiB, salts 8..64, rejected points. cryptoPwhash never panics within the documented bounds and is total (ok = spec value, err otherwise); object verify modelled (objVerify_iff_spec); convert_costs, the range guards (and that they precede the conversion) and the memory geometry are machine-translated and proved equal to the model.",
     design="§7 C09", technique="Lean 4 proof (validation, index/offset arithmetic, H′ structure, model = RFC 9106) + kernels regenerated from source by a translator and proved equal to the model + differential correspondence impl/model/RFC-9106 Lean spec/libsodium",
     note="the loop nest around the kernels (fill_segment, generate_addresses) is hand-modelled and tied by the correspondence run; holds under 7·segment_length < 2^32+3."),
  "C10": dict(
-    text="Lean theorems over the string model (encoder, field-by-field parser as written, needs-rehash, verify): decimal and base64 round trips, the encoder never emits a separator inside a field, parse∘encode = ok with exactly the encoded fields for both algorithms and ANY non-empty salt/hash (incl. base64 text starting with 'argon2'), reencode∘encode = id, encode is injective (self-describing), needs_rehash = false iff both costs match (KiB truncation included), strVerify ok iff Argon2 reproduces the stored hash, parser/needs-rehash/verify never panic and parse-ok implies every later unwrap succeeds. Tied to the code by strings produced by dryoc (salt fixed through hook H3; object API with salts 8..64 and hashes 16..128) verified by libsodium and vice versa, parse→re-encode, needs-rehash grid.",
+    text="Lean theorems over the string model (encoder, field-by-field parser as written, needs-rehash, verify): decimal and base64 round trips, the encoder never emits a separator inside a field, parse∘encode = ok with exactly the encoded fields for both algorithms and ANY non-empty salt/hash (incl. base64 text starting with 'argon2'), reencode∘encode = id, encode is injective (self-describing), needs_rehash = false iff both costs match (KiB truncation included), strVerify ok iff Argon2 reproduces the stored hash, parser/needs-rehash/verify never panic and parse-ok implies every later unwrap succeeds. Tied to the code by strings produced by dryoc (salt fixed through hook H3; object API with salts 8..64 and hashes 16..128) verified by libsodium and vice versa, parse→re-encode, needs-rehash grid. The producer crypto_pwhash_str is modelled and run by the driver (pwhashStr_self_describing, pwhashStr_verify_iff, pwhashStr_needs_rehash); reencode through the code's cost round trip; strVerify never panics with the Argon2 model under the memory bound.",
     design="§7 C10", technique="Lean 4 proof (round-trip theorems for encoder/parser, needs-rehash iff) + differential correspondence impl/model/libsodium",
     note="base64 crate and str::parse::<u32> are modelled (Spec.Base64, parseU32), Argon2 is the Lean RFC spec."),
  "C11": dict(
-    text="Lean theorems over a data-flow model of every randomised entry point: each consumes exactly its documented number of bytes from the current position of the entropy stream (no constant, no reuse; consecutive operations use disjoint parts), and the random component of its result is that draw (or contains it), so distinct draws give distinct results. Tied to the code by hooked runs (hook H3: result and sizes of draws compared with the model, incl. degenerate all-zero entropy) and a statistical oracle on the OS generator (no repeat, no all-zero, no constant byte position over hundreds of calls; false-alarm < 2^-100).",
+    text="Lean theorems over a data-flow model of every randomised entry point: each consumes exactly its documented number of bytes from the current position of the entropy stream (no constant, no reuse; consecutive operations use disjoint parts), and the random component of its result is that draw (or contains it), so distinct draws give distinct results. Tied to the code by hooked runs (hook H3: result and sizes of draws compared with the model, incl. degenerate all-zero entropy) and a statistical oracle on the OS generator (no repeat, no all-zero, no constant byte position over hundreds of calls; false-alarm < 2^-100). Nightly generators in the table; freshness for derived kinds; the naive freshness of the sealed-box ephemeral key is proved FALSE (X25519 is not injective on clamped scalars) and replaced by the true relative statement; n-call disjointness.",
     design="§7 C11", technique="Lean 4 proof (entropy data-flow model: draws_n, disjointness, component-is-draw) + hooked differential run + statistical oracle",
     note="the OS generator's quality is trusted."),
  "C12": dict(
-    text="Lean theorems: derive rejects exactly the lengths outside 16..=64 and never panics; the subkey is BLAKE2b with digest length = requested length, key = master key, salt = le64(id)‖0^8, personal = ctx‖0^8 (kdf_eq_spec: libsodium's construction); the id enters modulo 2^64 only; (length, id, context) ↦ parameter block is injective (param_block_injective) so distinct inputs give distinct initial chaining values. Tied to the code by impl vs model vs Lean BLAKE2b spec vs libsodium on all 49 lengths × boundary ids, rejected lengths, pairwise distinctness incl. the prefix relation.",
+    text="Lean theorems: derive rejects exactly the lengths outside 16..=64 and never panics; the subkey is BLAKE2b with digest length = requested length, key = master key, salt = le64(id)‖0^8, personal = ctx‖0^8 (kdf_eq_spec: libsodium's construction); the id enters modulo 2^64 only; (length, id, context) ↦ parameter block is injective (param_block_injective) so distinct inputs give distinct initial chaining values. Tied to the code by impl vs model vs Lean BLAKE2b spec vs libsodium on all 49 lengths × boundary ids, rejected lengths, pairwise distinctness incl. the prefix relation. kdf_impl_eq_spec through dryoc's BLAKE2b model; initial-state injectivity; the digest-length argument and key/salt/personal order are machine-extracted from the source.",
     design="§7 C12", technique="Lean 4 proof (range check iff, parameter-block injectivity) + differential correspondence impl/model/spec/libsodium",
     note="distinct digests for distinct parameter blocks is collision resistance, checked per batch only."),
  "C13": dict(
-    text="Lean theorems: seeded key generation in the model is libsodium's construction for seeds of any length (box: SHA-512(seed)[0..32] then base-point multiple, SHA-512 output length proved; kx: BLAKE2b-32; sign: seed‖A), clampHash = RFC clamp, the converted secret key is exactly the signing scalar and equals the spec's conversion, the converted pair is consistent given that the birational map commutes with scalar multiplication (explicit hypothesis MapCommutes, kernel-checked on instances). Tied to the code by impl vs model vs Lean spec vs libsodium on seeds of every length 0..=128, every clamp-bit pattern, password-derived pairs (incl. non-default Config lengths) and the conversion-consistency check on every generated pair.",
+    text="Lean theorems: seeded key generation in the model is libsodium's construction for seeds of any length (box: SHA-512(seed)[0..32] then base-point multiple, SHA-512 output length proved; kx: BLAKE2b-32; sign: seed‖A), clampHash = RFC clamp, the converted secret key is exactly the signing scalar and equals the spec's conversion, the converted pair is consistent given that the birational map commutes with scalar multiplication (explicit hypothesis MapCommutes, kernel-checked on instances). Tied to the code by impl vs model vs Lean spec vs libsodium on seeds of every length 0..=128, every clamp-bit pattern, password-derived pairs (incl. non-default Config lengths) and the conversion-consistency check on every generated pair. pkToCurve agrees with libsodium wherever libsodium accepts (pkToCurve_of_spec) and errs iff the point does not decode; models for from_secret_key, derive_keypair and the in-place seed forms (independent of prior buffer contents).",
     design="§7 C13", technique="Lean 4 proof (constructions, clamp facts) + differential correspondence impl/model/spec/libsodium",
     note="the Ed→Montgomery map commuting with scalar multiplication is a hypothesis (group law not in Mathlib)."),
  "C14": dict(
-    text="Lean theorems over a kernel/allocator/region model of protected.rs (symbolic page size): the mprotect call of every wrapper covers exactly the pages holding data for every length (and the len−1 variant misses the last page iff len ≡ 1 mod P); an invariant — data pages carry exactly the rights of the type state, are locked iff the type says Locked, both guard pages are inaccessible, live regions are page-disjoint, contents unchanged by transitions — holds after every operation sequence (induction over arbitrary histories); after the last drop nothing is locked or has altered rights. Tied to the code by sequences over the type-state graph observed through /proc/self/maps, VmLck, checksums and forked fault probes.",
+    text="Lean theorems over a kernel/allocator/region model of protected.rs (symbolic page size): the mprotect call of every wrapper covers exactly the pages holding data for every length (and the len−1 variant misses the last page iff len ≡ 1 mod P); an invariant — data pages carry exactly the rights of the type state, are locked iff the type says Locked, both guard pages are inaccessible, live regions are page-disjoint, contents unchanged by transitions — holds after every operation sequence (induction over arbitrary histories); after the last drop nothing is locked or has altered rights. Tied to the code by sequences over the type-state graph observed through /proc/self/maps, VmLck, checksums and forked fault probes. Probe outcomes follow from the invariant (ro_write_faults, na_any_access_faults, rw_access_ok, guard_probes_fault), guard-page distance, contents through clone/resize; allocator arithmetic and syscall arguments machine-translated.",
     design="§7 C14", technique="Lean 4 proof (page arithmetic, invariant by induction over operation histories) + differential correspondence impl/model through /proc and fault probes",
     note="Linux mprotect/mlock semantics, glibc, /proc reporting are modelled, not verified; nightly build only."),
  "C15": dict(
-    text="Lean theorem over the allocator/Vec/region model: for every operation sequence (create, fill, resize up/down, clone, lock, unlock, protect, drop) every release event reaches the system allocator with all layout.size() bytes zero — an invariant of deallocate, independent of the Vec growth policy; the unwiped variant is shown to violate it. Tied to the code through hook H2 (address, size, non-zero count at every release).",
+    text="Lean theorem over the allocator/Vec/region model: for every operation sequence (create, fill, resize up/down, clone, lock, unlock, protect, drop) every release event reaches the system allocator with all layout.size() bytes zero — an invariant of deallocate, independent of the Vec growth policy; the unwiped variant is shown to violate it. Tied to the code through hook H2 (address, size, non-zero count at every release). The release trace is complete (objDrop_releases, grow_releases_old, finish_releases_all) and the wipe runs on writable pages.",
     design="§7 C15", technique="Lean 4 proof (release-trace invariant) + differential correspondence through the allocator release observer",
     note="hook H2 is trusted to report what is freed; nightly build only."),
  "C18": dict(
-    text="Lean theorem simd_compress_eq: the SIMD compression function — a Lean interpreter over swizzle/rotation tables REGENERATED FROM blake2b_simd.rs by tools/simd_tables.py on every run — equals the software compression function for every chaining value, counter, flags and block (schedule_eq_sigma by decide over the regenerated tables, lane-wise G, permute/unpermute), lifted to whole hashes (simd_hashChunks_eq) through the buffering theorems that hold for any compression function; hence equal to RFC 7693. Tied to the code by answering the C07/C08/C09/C12/C05/C06/C13 corpora with three builds (stable default, nightly, nightly+simd_backend) and diffing the transcripts, plus Vec/stack/heap container groups.",
+    text="Lean theorem simd_compress_eq: the SIMD compression function — a Lean interpreter over swizzle/rotation tables REGENERATED FROM blake2b_simd.rs by tools/simd_tables.py on every run — equals the software compression function for every chaining value, counter, flags and block (schedule_eq_sigma by decide over the regenerated tables, lane-wise G, permute/unpermute), lifted to whole hashes (simd_hashChunks_eq) through the buffering theorems that hold for any compression function; hence equal to RFC 7693. Tied to the code by answering the C07/C08/C09/C12/C05/C06/C13 corpora with three builds (stable default, nightly, nightly+simd_backend) and diffing the transcripts, plus Vec/stack/heap container groups. Per-call SIMD laws, simd_longhash_eq, simd_kdf_eq, simd_kx_eq, simd_seal_nonce_eq; evaluated RFC 7693 vectors through the SIMD model.",
     design="§7 C18, §10", technique="translator (Rust source → Lean tables) + Lean 4 proof of SIMD = software compression + three-build transcript diff",
     note="the translator is trusted to transcribe the swizzle tables (it fails loudly on unexpected shapes); sha2/asm and dalek's SIMD backends are covered by the transcript diff only."),
  "C19": dict(
-    text="Lean theorems over the protected-memory model with an arbitrary lock-refusal oracle: every Result-returning constructor/transition yields ok or err, never panic; a refused lock leaves every other region's pages untouched and the consumed region wiped and unlocked; drop still restores everything. Tied to the code by re-running the C14 sequences with the k-th and all later mlock requests refused by an LD_PRELOAD shim.",
+    text="Lean theorems over the protected-memory model with an arbitrary lock-refusal oracle: every Result-returning constructor/transition yields ok or err, never panic; a refused lock leaves every other region's pages untouched and the consumed region wiped and unlocked; drop still restores everything. Tied to the code by re-running the C14 sequences with the k-th and all later mlock requests refused by an LD_PRELOAD shim. lock_err_cleans_up from the error outcome, err_create_no_residue, failOracle_spec, E14 counter-model.",
     design="§7 C19", technique="Lean 4 proof (no-panic and cleanup under any refusal oracle) + fault-injection correspondence (LD_PRELOAD mlock shim)",
     note="non-Result operations (Clone, resize of a locked region, Default) may panic when locking is refused: outside the property's statement."),
  "C16": dict(
-    text="Lean theorems over the serde data-model view of bytes_serde.rs and the from/to-bytes layer: fixed-length decoding succeeds iff the encoding holds exactly n bytes and then yields exactly those bytes (both encodings of a byte string: element sequence and byte string) — never padded, never truncated, never a panic; resizable containers decode to exactly the payload; de∘ser = id; to_bytes layouts (tag‖c, epk‖tag‖c, sig‖m) and from_bytes∘to_bytes = id. Tied to the code by decoding stack/locked containers from every element count 0..=2n in JSON-array, JSON-string and bincode encodings, heap containers for payload lengths incl. page boundaries, and JSON/bincode round trips of every serde object followed by decrypt/verify.",
+    text="Lean theorems over the serde data-model view of bytes_serde.rs and the from/to-bytes layer: fixed-length decoding succeeds iff the encoding holds exactly n bytes and then yields exactly those bytes (both encodings of a byte string: element sequence and byte string) — never padded, never truncated, never a panic; resizable containers decode to exactly the payload; de∘ser = id; to_bytes layouts (tag‖c, epk‖tag‖c, sig‖m) and from_bytes∘to_bytes = id. Tied to the code by decoding stack/locked containers from every element count 0..=2n in JSON-array, JSON-string and bincode encodings, heap containers for payload lengths incl. page boundaries, and JSON/bincode round trips of every serde object followed by decrypt/verify. Failure halves (fromBytes_err_iff, deFixed_err_iff), still-decrypts / still-verifies after the round trip, field-wise struct round trip, pre-fix visitor counter-models.",
     design="§7 C16", technique="Lean 4 proof (strict fixed-length decoding iff, round trips, layouts) + differential correspondence impl/model over both serde formats",
     note="serde_json, bincode and serde_derive are trusted to hand the visitors what the model assumes; nightly build for heap/locked containers."),
  "C20": dict(
-    text="Lean theorems over the type-state table `permits` (which trait impls protected.rs/dryocstream.rs offer in each state): everything permitted in a state is allowed by the page rights that state guarantees (permits_sound), mutable views only in ReadWrite, no view in NoAccess, no-access only when Unlocked, nothing after a consuming transition, push/pull only on the matching stream mode, and well_typed_no_fault: a program whose every step is permitted never performs an access its page rights forbid (induction over programs). That rustc accepts exactly this table is measured exhaustively on every run: one program per cell (150) compiled against the current tree, permitted ones also run.",
+    text="Lean theorems over the type-state table `permits` (which trait impls protected.rs/dryocstream.rs offer in each state): everything permitted in a state is allowed by the page rights that state guarantees (permits_sound), mutable views only in ReadWrite, no view in NoAccess, no-access only when Unlocked, nothing after a consuming transition, push/pull only on the matching stream mode, and well_typed_no_fault: a program whose every step is permitted never performs an access its page rights forbid (induction over programs). That rustc accepts exactly this table is measured exhaustively on every run: one program per cell (150) compiled against the current tree, permitted ones also run. The table is tied to C14's kernel model: marker_is_page_right, permitted_access_no_segv, forbidden_*_segv, transitions_follow_table, well_typed_no_segv.",
     design="§7 C20", technique="Lean 4 proof over the permits table + exhaustive compile farm (rustc verdict per cell vs the Lean table)",
     note="rustc's trait resolution/borrow checking is the decider and is trusted; the (NoAccess, Locked) state is compile-only."),
  "C17": dict(
-    text="Lean theorem over the buffer-level models: whenever an opening function (box/secretbox/sealed/afternm, detached and in-place, stream pull) returns err, the caller's message buffer and tag variable equal their initial values — for every input, not only single corruptions. Tied to the code by the exhaustive single-fault family with sentinel-filled buffers.",
+    text="Lean theorem over the buffer-level models: whenever an opening function (box/secretbox/sealed/afternm, detached and in-place, stream pull) returns err, the caller's message buffer and tag variable equal their initial values — for every input, not only single corruptions. Tied to the code by the exhaustive single-fault family with sentinel-filled buffers. Pre-fix counter-models (old_open_releases, old_pull_releases), object pull keeps the state on error through the code-shaped path, afternm forms.",
     design="§7 C17", technique="Lean 4 proof (failed open leaves outputs untouched) + exhaustive single-fault differential enumeration with sentinel buffers",
     note=""),
 }
